@@ -18,6 +18,7 @@ from simkit import stream as S
 
 LEVEL = "exploration"
 MAX_LEN = 6000
+SPLINE_MAX = 1200
 STRATEGIES = ("PiecewiseConstantRFA", "CubicSplineRFA", "LinearFixedRFA", "LinearAdaptiveRFA", "ExpFixedRFA",
               "ExpAdaptiveRFA")
 ADAPTIVE = ("LinearAdaptiveRFA", "ExpAdaptiveRFA")
@@ -533,7 +534,7 @@ class Machine:
         if len(x) < 4:
             return None
         m = st.pick(METHODS, "method")
-        if getattr(self, "regime", "moderate") != "moderate":
+        if getattr(self, "regime", "moderate") != "moderate" or (len(x) > SPLINE_MAX and m == "spline"):
             m = st.pick(("linear", "constant"), "method-extreme")
         rx, _ = self.ref()
         special = st.weighted((8, 1, 1), "grid-special")     # ordinary, as many points as the reference, the reference grid
@@ -576,7 +577,8 @@ class Machine:
                 g = self.gen_interpolate()
             elif k == 3:
                 x, _ = self.cur()
-                g = ("smooth", {"s": st.pick((0.0, 0.01, 0.5, 1.0, 10.0, 100.0), "s")}) if len(x) >= 5 else None
+                # FITPACK's smoothing spline needs tens of seconds on several thousand points: a bound on the generator
+                g = ("smooth", {"s": st.pick((0.0, 0.01, 0.5, 1.0, 10.0, 100.0), "s")}) if 5 <= len(x) <= SPLINE_MAX else None
             elif k == 4:
                 g = ("trend", {"f": st.pick(sorted(TRENDS), "trend"), "a": self.num("ta"), "b": self.num("tb"),
                                "normalized": st.coin(1, 3, "normalized")})
@@ -952,7 +954,11 @@ class Machine:
             # one or two samples left: only the requests whose refusal does not depend on there being intervals
             classes = ["ctor-mismatched-lengths", "ctor-not-Nx2", "recreate-n-below-2", "truncate-index-bounds",
                        "slice-index-bounds", "unknown-dataset", "recreate-n-below-2"]
-        elif self.match_ready():
+        elif not self.match_ready():
+            # an unknown name is wrong in ANY state - also where matching itself would not be admissible (say, after an
+            # interpolation that left the grid an ulp off the reference points): refused, and nothing touched
+            classes += ["match-unknown-target-rule", "match-unknown-reference-rule", "match-unknown-strategy"]
+        else:
             classes += ["match-unknown-target-rule", "match-unknown-reference-rule", "match-unknown-strategy",
                         "match-fixed-points-not-samples", "match-fixed-points-too-many"] * 2
         rx, _ = self.ref()
@@ -1096,6 +1102,8 @@ class Machine:
             # surrounding VALID arguments vary: none, an exponent, the other rule, explicit fixed points (values or indices)
             kw = {}
             extra = st.draw(0, 6, "surrounding")
+            if extra in (2, 3, 5, 6) and not self.match_ready():
+                extra = 0                                  # explicit fixed points are only known to be valid when match-ready
             if extra == 5:
                 # a single fixed point (a sample): no interval is left to integrate over, the rule names still count
                 kw["fixed_points_in_x"] = [float(rx[st.draw(0, len(rx) - 1, "single-fixed-point")])]
@@ -1388,7 +1396,7 @@ def replayable(M, op, a):
     if op == "repeat":
         return len(x) * a["n"] <= MAX_LEN
     if op == "smooth":
-        return len(x) >= 5
+        return 5 <= len(x) <= SPLINE_MAX
     if op == "noise":
         return not isinstance(a.get("snr"), list) or len(a["snr"]) == len(x)
     return True
@@ -1495,7 +1503,8 @@ def observe(M):
                 wv.to_2d_array()
             elif k == 4:
                 if n >= 5:
-                    wv.to_function()(float(x[0]))
+                    if len(x) <= SPLINE_MAX:
+                        wv.to_function()(float(x[0]))
             elif k == 5:
                 len(wv)
             else:
@@ -1574,7 +1583,7 @@ class Engine:
             depth = 2 if tier == "quick" else 3
             units += [{"gen": "exhaustive-prefix", "first": i, "depth": depth} for i in range(len(ALPHABET))]
             units += [{"gen": "known-probe", "name": name} for name in sorted(KNOWN_PROBES)]
-        n = {"C08": (60000, 1500000), "C09": (40000, 1200000), "C20": (30000, 800000)}[self.PROPERTY]
+        n = {"C08": (100000, 2000000), "C09": (80000, 1600000), "C20": (60000, 1200000)}[self.PROPERTY]
         import os
         count = int(os.environ.get("VERIF_HISTORIES", "0")) or (n[0] if tier == "quick" else n[1])
         units += [{"gen": "seeded"}] * count
